@@ -547,8 +547,15 @@ def glue_contextlib() -> None:
                     return unwrap_context_generator(frame, context)
         return None
 
+    # The exit stacks (of this thread) whose children are being filled in
+    exit_stacks_in_progress = threading.local()
+
     @elaborate_context.register(ExitStackBase)
     def elaborate_exit_stack(stack: Any, context: Context) -> None:
+        try:
+            in_progress: List[Any] = exit_stacks_in_progress.stacks
+        except AttributeError:
+            in_progress = exit_stacks_in_progress.stacks = []
         stackname = context.varname or "_"
         children = []
         errors: List[Exception] = []
@@ -638,43 +645,51 @@ def glue_contextlib() -> None:
                 describe_arg = functools.partial(format_funcname, callback)
             return manager, tag, method, describe_arg
 
-        for idx, (is_sync, callback) in enumerate(callbacks):
-            manager: object
-            describe_arg: Optional[Callable[[], str]]
-            try:
-                manager, tag, method, describe_arg = classify(is_sync, callback)
-            except Exception as ex:
-                # (an object that objects to the questions we ask: it is
-                # a registration all the same)
-                errors.append(ex)
-                manager, tag, describe_arg = None, "", None
-                method = "push" if is_sync else "push_async_exit"
-
-            child_context = Context(
-                obj=manager if manager is not None else callback,
-                is_async=not is_sync,
-                varname=f"{stackname}[{idx}]",
-                start_line=context.start_line,
-            )
-            # Attach the child before filling it in, so that whatever was
-            # learned about it (and about earlier children) is kept even if
-            # one of the hooks invoked by fill_context() raises
-            children.append(child_context)
-            context.children = children
-            # A failure to describe one registration is no reason to drop the
-            # ones registered after it
-            try:
+        in_progress.append(stack)
+        try:
+            for idx, (is_sync, callback) in enumerate(callbacks):
+                manager: object
+                describe_arg: Optional[Callable[[], str]]
                 try:
-                    _extract.fill_context(child_context)
-                finally:
-                    arg = child_context.description
-                    if arg is None and describe_arg is not None:
-                        arg = describe_arg()
-                    child_context.description = (
-                        f"{tag}{stackname}.{method}({arg or '...'})"
-                    )
-            except Exception as ex:
-                errors.append(ex)
+                    manager, tag, method, describe_arg = classify(is_sync, callback)
+                except Exception as ex:
+                    # (an object that objects to the questions we ask: it is
+                    # a registration all the same)
+                    errors.append(ex)
+                    manager, tag, describe_arg = None, "", None
+                    method = "push" if is_sync else "push_async_exit"
+
+                child_context = Context(
+                    obj=manager if manager is not None else callback,
+                    is_async=not is_sync,
+                    varname=f"{stackname}[{idx}]",
+                    start_line=context.start_line,
+                )
+                # Attach the child before filling it in, so that whatever was
+                # learned about it (and about earlier children) is kept even if
+                # one of the hooks invoked by fill_context() raises
+                children.append(child_context)
+                context.children = children
+                # A failure to describe one registration is no reason to drop the
+                # ones registered after it
+                try:
+                    try:
+                        # (An exit stack can have methods of itself registered on
+                        # it - directly, or through another stack that it holds -
+                        # and must not be unfolded inside itself without end.)
+                        if not any(child_context.obj is outer for outer in in_progress):
+                            _extract.fill_context(child_context)
+                    finally:
+                        arg = child_context.description
+                        if arg is None and describe_arg is not None:
+                            arg = describe_arg()
+                        child_context.description = (
+                            f"{tag}{stackname}.{method}({arg or '...'})"
+                        )
+                except Exception as ex:
+                    errors.append(ex)
+        finally:
+            in_progress.pop()
 
         context.children = children
         if len(errors) == 1:
